@@ -23,14 +23,100 @@ import (
 // sndW records like h.W and lets a test look at the stack from inside the write, i.e. while the send is in flight.
 type sndW struct {
 	h.W
-	hook func(m []byte)
+	pre  func(m []byte) // called before the bytes are recorded: the counter is drawn, the datagram not yet on the connection
+	hook func(m []byte) // called after the bytes are recorded: the datagram is on the connection, the send has not returned
 }
 
 func (w *sndW) WriteShipMessageWithPayload(m []byte) {
+	if w.pre != nil {
+		w.pre(m)
+	}
 	w.W.WriteShipMessageWithPayload(m)
 	if w.hook != nil {
 		w.hook(m)
 	}
+}
+
+// sndCounterOf reads the message counter of a written datagram (0: none).
+func sndCounterOf(m []byte) uint64 {
+	var dg model.Datagram
+	if json.Unmarshal(m, &dg) != nil || dg.Datagram.Header.MsgCounter == nil {
+		return 0
+	}
+	return uint64(*dg.Datagram.Header.MsgCounter)
+}
+
+// sndRespSerialised is set once a response processed from inside a request's write did not return before the
+// request did (a tree in which the response path waits for the request mutex): from then on the harness does not
+// wait inside the write and the step is the sequence "request; response".
+var sndRespSerialised bool
+
+// requestInFlight runs call (a Request of some kind) and, while its datagram is on the connection and the call has
+// not returned, processes a response referencing ref (0: the request's own counter) on another goroutine — what
+// the connection's reader goroutine does when the peer answers at once. It returns the reference used (0: nothing
+// was written, so nothing was answered) and whether the response was processed inside the write.
+func (sw *sndWorld) requestInFlight(ref uint64, call func()) (used uint64, inside bool) {
+	doneCh := make(chan struct{})
+	fired := false
+	sw.w.hook = func(m []byte) {
+		c := sndCounterOf(m)
+		if c == 0 {
+			return
+		}
+		used = ref
+		if ref == 0 {
+			used = c
+		}
+		fired = true
+		go func() {
+			sw.s.ProcessResponseForMsgCounterReference(util.Ptr(model.MsgCounterType(used)))
+			close(doneCh)
+		}()
+		if sndRespSerialised {
+			return
+		}
+		select {
+		case <-doneCh:
+			inside = true
+		case <-time.After(20 * time.Second):
+			sndRespSerialised = true
+		}
+	}
+	call()
+	sw.w.hook = nil
+	if fired && !inside {
+		select {
+		case <-doneCh:
+		case <-time.After(20 * time.Second):
+		}
+	}
+	return used, inside
+}
+
+// probeInsertAfterWrite runs the witness of the family flag on the tree under test: a request answered while it is
+// being written, then the identical request. As written (insertion after the write) the second one is withheld.
+func probeInsertAfterWrite() (on bool, witness []string, detail string) {
+	sw := newSndWorld()
+	dest := h.FA("rem", []uint{1}, 1)
+	cmd := []model.CmdType{sndCmd(1)}
+	var c1, c2 *model.MsgCounterType
+	sw.requestInFlight(0, func() { c1, _ = sw.s.Request(model.CmdClassifierTypeRead, sw.local, dest, false, cmd) })
+	w1 := sw.wire()
+	c2, _ = sw.s.Request(model.CmdClassifierTypeRead, sw.local, dest, false, cmd)
+	w2 := sw.wire()
+	on = len(w1) == 1 && len(w2) == 0
+	detail = fmt.Sprintf("request written as %v (returned %v), answered in flight; identical request wrote %v", w1, ctrS(c1), w2)
+	if c2 != nil {
+		detail += fmt.Sprintf(" and returned %d", *c2)
+	}
+	return on, []string{"reqf 0 1 0", "req 0 1"}, detail
+}
+
+func ctrS(c *model.MsgCounterType) string {
+	if c == nil {
+		return "nil"
+	}
+	return fmt.Sprint(*c)
 }
 
 type sndWorld struct {
@@ -95,9 +181,24 @@ type specSnd struct {
 	seen       map[uint64]bool
 	notifies   []uint64 // counters of notifications, in order
 	promoted   bool     // some lookup hit happened (LRU promotion possible)
+	overtaken  map[uint64]bool // requests answered while they were being written (before Request returned)
 }
 
-func newSpecSnd() *specSnd { return &specSnd{unanswered: map[int]uint64{}, seen: map[uint64]bool{}} }
+func newSpecSnd() *specSnd {
+	return &specSnd{unanswered: map[int]uint64{}, seen: map[uint64]bool{}, overtaken: map[uint64]bool{}}
+}
+
+// answer: a response referencing ref was processed.
+func (sp *specSnd) answer(ref uint64) bool {
+	hit := false
+	for hid, c := range sp.unanswered {
+		if c == ref {
+			delete(sp.unanswered, hid)
+			hit = true
+		}
+	}
+	return hit
+}
 
 func (sp *specSnd) onWire(r *h.Report, ops []string, cs []uint64) {
 	for _, c := range cs {
@@ -130,19 +231,29 @@ func runSenderHistory(r *h.Report, d *h.Driver, ops []string, corpus bool) {
 		var impl2, line2 string // second model op of a compound step
 		nontrivial := ""
 		switch f[0] {
-		case "req", "sub", "unsub", "bind", "unbind":
+		case "req", "reqf", "sub", "unsub", "bind", "unbind":
 			di, _ := strconv.Atoi(f[1])
 			ci, _ := strconv.Atoi(f[2])
 			dest := dests[di%len(dests)]
 			var ctr *model.MsgCounterType
 			var err error
 			var hid int
+			var flownRef uint64
+			flownInside := false
 			switch f[0] {
 			case "req":
 				cmd := []model.CmdType{sndCmd(ci)}
 				hid = sw.hashID(dest, cmd)
 				cls := []model.CmdClassifierType{model.CmdClassifierTypeRead, model.CmdClassifierTypeCall}[ci%2]
 				ctr, err = sw.s.Request(cls, sw.local, dest, ci%3 == 0, cmd)
+			case "reqf":
+				// reqf <dest> <cmd> <ref>: the peer's response referencing <ref> (0: this request's own counter) is processed
+				// by another goroutine while the request is being written, i.e. before Request has returned
+				rf, _ := strconv.Atoi(f[3])
+				cmd := []model.CmdType{sndCmd(ci)}
+				hid = sw.hashID(dest, cmd)
+				cls := []model.CmdClassifierType{model.CmdClassifierTypeRead, model.CmdClassifierTypeCall}[ci%2]
+				flownRef, flownInside = sw.requestInFlight(uint64(rf), func() { ctr, err = sw.s.Request(cls, sw.local, dest, ci%3 == 0, cmd) })
 			case "sub":
 				ft := []model.FeatureTypeType{model.FeatureTypeTypeLoadControl, model.FeatureTypeTypeMeasurement}[ci%2]
 				cmd := []model.CmdType{{NodeManagementSubscriptionRequestCall: spine.NewNodeManagementSubscriptionRequestCallType(sw.local, dest, ft)}}
@@ -163,6 +274,14 @@ func runSenderHistory(r *h.Report, d *h.Driver, ops []string, corpus bool) {
 				ctr, err = sw.s.Unbind(sw.local, dest)
 			}
 			line = fmt.Sprintf("req %d", hid)
+			if f[0] == "reqf" {
+				if flownRef == 0 || flownInside {
+					line = fmt.Sprintf("reqf %d %s", hid, f[3])
+				} else {
+					// the response path waited for the request to finish: request, then response
+					line2, impl2 = fmt.Sprintf("resp %d", flownRef), "ok"
+				}
+			}
 			wire := sw.wire()
 			done = append(done, op)
 			if err != nil || ctr == nil {
@@ -175,6 +294,8 @@ func runSenderHistory(r *h.Report, d *h.Driver, ops []string, corpus bool) {
 			if ctr != nil {
 				prev, pending := sp.unanswered[hid]
 				switch {
+				case len(wire) == 0 && !pending && sp.overtaken[uint64(*ctr)]:
+					r.SpecFail("answer-overtakes-insert", done, fmt.Sprintf("request hash %d withheld (returned %d) although request %d was answered — the response was processed while the request was being written, before it was remembered", hid, *ctr, *ctr))
 				case len(wire) == 0 && !pending:
 					r.SpecFail("withheld-without-identical-unanswered", done, fmt.Sprintf("request hash %d withheld (returned %d) although no identical request is unanswered", hid, *ctr))
 				case len(wire) == 0 && pending && uint64(*ctr) != prev:
@@ -191,6 +312,18 @@ func runSenderHistory(r *h.Report, d *h.Driver, ops []string, corpus bool) {
 					kind = "req:withheld"
 					withheld++
 				}
+				if flownRef != 0 {
+					// the response arrived after the datagram was on the connection
+					if flownInside && len(wire) == 1 && flownRef == wire[0] {
+						sp.overtaken[flownRef] = true
+					}
+					if sp.answer(flownRef) {
+						hits++
+					}
+					if flownInside {
+						kind += ":answered-in-flight"
+					}
+				}
 			}
 			// SPEC: "the memory of unanswered requests stays bounded" - any fixed bound satisfies the
 			// statement; the monitor uses 64 (the code's own bound, 21, is the model's business)
@@ -203,13 +336,7 @@ func runSenderHistory(r *h.Report, d *h.Driver, ops []string, corpus bool) {
 			sw.s.ProcessResponseForMsgCounterReference(util.Ptr(model.MsgCounterType(ref)))
 			impl = "ok"
 			done = append(done, op)
-			hit := false
-			for hid, c := range sp.unanswered {
-				if c == uint64(ref) {
-					delete(sp.unanswered, hid)
-					hit = true
-				}
-			}
+			hit := sp.answer(uint64(ref))
 			kind = "resp:miss"
 			if hit {
 				kind = "resp:hit"
@@ -360,7 +487,16 @@ func genSenderHistory(rng interface{ Intn(int) int }, n int) []string {
 	for i := 0; i < n; i++ {
 		switch x := rng.Intn(100); {
 		case x < 45:
-			ops = append(ops, fmt.Sprintf("req %d %d", rng.Intn(nd), rng.Intn(nc)))
+			if y := rng.Intn(8); y == 0 {
+				// answered while in flight: mostly by the response to this very request, sometimes to another counter
+				ref := 0
+				if rng.Intn(4) == 0 {
+					ref = 1 + rng.Intn(issued+2)
+				}
+				ops = append(ops, fmt.Sprintf("reqf %d %d %d", rng.Intn(nd), rng.Intn(nc), ref))
+			} else {
+				ops = append(ops, fmt.Sprintf("req %d %d", rng.Intn(nd), rng.Intn(nc)))
+			}
 			issued++
 		case x < 53:
 			k := []string{"sub", "unsub", "bind", "unbind"}[rng.Intn(4)]
@@ -402,12 +538,30 @@ func TestSender(t *testing.T) {
 	defer r.Write()
 	d := h.StartDriver("drv_snd")
 	defer d.Close()
+	// probe phase: which member of the family is the tree under test?
+	on, wit, det := probeInsertAfterWrite()
+	r.SetFlag("insertAfterWrite", on, wit, det)
+	if !on {
+		d.Ask("cfg insertfirst 1")
+	}
 	if ops := h.ReplayOps("sender"); ops != nil {
 		runSenderHistory(r, d, ops, true)
 		return
 	}
 	// corpus first: the LRU witness (known finding) and the eviction edge
 	runSenderHistory(r, d, lruWitness(), true)
+	// a request answered while it is being written, then the identical request (known finding answer-overtakes-insert
+	// on the member as written), then a response to ANOTHER open request inside the window, which is harmless
+	runSenderHistory(r, d, []string{"reqf 0 1 0", "req 0 1", "resp 1", "req 0 1", "req 0 2", "reqf 0 3 3", "req 0 2", "req 0 3", "reqf 0 1 0", "reqf 0 1 0"}, true)
+	// 30 requests each answered in flight: the stale entries stay within the bound, the oldest are evicted
+	var stale []string
+	for i := 0; i < 30; i++ {
+		stale = append(stale, fmt.Sprintf("reqf %d %d 0", i%3, 700+i))
+	}
+	for i := 0; i < 30; i++ {
+		stale = append(stale, fmt.Sprintf("req %d %d", i%3, 700+i))
+	}
+	runSenderHistory(r, d, stale, true)
 	var ev []string
 	for i := 0; i < 25; i++ {
 		ev = append(ev, fmt.Sprintf("req 0 %d", 100+i))
@@ -473,7 +627,7 @@ func TestSender(t *testing.T) {
 	}
 	// minimise the witnesses of unlisted spec failures and of the first mismatch
 	for _, sf := range append([]h.SpecFailure{}, r.SpecFailures...) {
-		if sf.Key == "lru-promotion" || len(sf.Ops) < 4 {
+		if sf.Key == "lru-promotion" || sf.Key == "answer-overtakes-insert" || len(sf.Ops) < 4 {
 			continue
 		}
 		key := sf.Key
@@ -500,6 +654,7 @@ func TestSender(t *testing.T) {
 	r.Floor("withheld requests", r.Dist["req:withheld"], r.Dist["req:withheld"]+r.Dist["req:sent"], 0.05)
 	r.Floor("responses that hit", r.Dist["resp:hit"], r.Dist["resp:hit"]+r.Dist["resp:miss"], 0.05)
 	r.Floor("lookups that hit", r.Dist["get:hit"], r.Dist["get:hit"]+r.Dist["get:miss"], 0.05)
+	r.Floor("requests answered while in flight", r.Dist["req:sent:answered-in-flight"], r.Dist["req:withheld"]+r.Dist["req:sent"]+r.Dist["req:sent:answered-in-flight"], 0.02)
 
 	// concurrent senders: counters on the wire must be pairwise distinct (monitor only)
 	conc := h.Scale(20, 200)
